@@ -193,8 +193,8 @@ TEXTS = ['comment_star', 'string_star', 'doc_star', 'doc_static', 'comment_stati
 def strip_iters(v, keep_top):
     """one-shot iterators only at the top level of an argument (the part of the model that tracks consumption)"""
     k = v[0]
-    if k == 'iter':
-        return [('iter' if keep_top else 'list'), [strip_iters(x, False) for x in v[1]]]
+    if k == 'iter':     # an empty iterator cannot be observed to be consumed: use a list
+        return [('iter' if (keep_top and v[1]) else 'list'), [strip_iters(x, False) for x in v[1]]]
     if k in ('list', 'tuple', 'set', 'frozenset', 'deque', 'keys', 'values'):
         return [k, [strip_iters(x, False) for x in v[1]]]
     if k in ('dict', 'defaultdict', 'ordereddict', 'items'):
@@ -251,6 +251,9 @@ def gen_signature(rng):
             d = conf(rng, a) or v
         else:
             d = None
+        if i < posonly_n and d is None:      # positional-only parameters cannot be passed under the keyword discipline at all
+            dflt_started = True
+            d = conf(rng, a) or v
         params.append({'name': POS_NAMES[i], 'kind': 'posonly' if i < posonly_n else 'pos', 'ann': a, 'default': d})
         vals[POS_NAMES[i]] = v
     if has_varpos:
@@ -342,7 +345,7 @@ def gen_case(rng, stream, forced=None):
     c['body'] = ['ret', rv] if rng.random() < 0.85 else ['raise', rng.choice(BODY_EXC)]
     # the conforming keyword call
     kwargs, args = [], []
-    named = [p for p in params if p['kind'] in ('pos', 'kwonly', 'posonly')]
+    named = [p for p in params if p['kind'] in ('pos', 'kwonly')]
     for p in named:
         if p['default'] is None or rng.random() < 0.5:
             kwargs.append([p['name'], vals[p['name']]])
@@ -495,6 +498,16 @@ def size_of(c):
     return (len(c['params']), len(c['args']) + len(c['kwargs']), len(json.dumps(c)))
 
 
+def base_case(**kw):
+    """@pedantic def f(a: int) -> int, called f(a=1), body returns 1 - the skeleton of the finding witnesses"""
+    c = {'mode': 'pedantic', 'style': 'func', 'mkind': 'plain', 'name': 'f', 'recv_name': None, 'decos': ['pedantic'],
+         'async': False, 'gen': False, 'text': 'none', 'via': None, 'ctx': GC.CTX, 'stream': 'witness', 'mut': 'none',
+         'params': [{'name': 2, 'kind': 'pos', 'ann': ['cls', 'int'], 'default': None}], 'ret': ['cls', 'int'],
+         'body': ['ret', ['int', 1]], 'args': [], 'kwargs': [[2, ['int', 1]]]}
+    c.update(kw)
+    return c
+
+
 # ------------------------------------------------------------------------------------------ judges
 def judge_corr(case, i, m):
     """implementation vs model; returns None or a description of the disagreement"""
@@ -563,14 +576,29 @@ def names_varpos_args(fn):
     return any(p['kind'] == 'varpos' and p['name'] == 7 for p in fn['params'])
 
 
+def is_iterable_ann(a):
+    return bool(a) and a[0] == 'gen' and a[1] == 'typing' and a[2] == 'Iterable'
+
+
 def iter_under_iterable(case, fn):
-    kw = dict((k, v) for k, v in case['kwargs'])
-    for p in fn['params']:
-        a = p['ann']
-        if a and a[0] == 'gen' and a[2] == 'Iterable':
-            v = kw.get(p['name'], p['default'])
-            if v is not None and v[0] == 'iter':
-                return True
+    """a one-shot iterator written by the caller (or a default) whose annotation in force is typing.Iterable[...]"""
+    byname = {p['name']: p for p in fn['params'] if p['kind'] in ('pos', 'kwonly', 'posonly')}
+    varkw = [p for p in fn['params'] if p['kind'] == 'varkw']
+    varpos = [p for p in fn['params'] if p['kind'] == 'varpos']
+    given = set()
+    for k, v in case['kwargs']:
+        given.add(k)
+        p = byname.get(k) or (varkw[0] if varkw else None)
+        if v[0] == 'iter' and p and is_iterable_ann(p['ann']):
+            return True
+    for p in byname.values():
+        if p['name'] not in given and p['default'] is not None and p['default'][0] == 'iter' and is_iterable_ann(p['ann']):
+            return True
+    lead = [p for p in fn['params'] if p['kind'] in ('pos', 'posonly') and p['name'] != 0]
+    for i, v in enumerate(case['args']):
+        p = lead[i] if i < len(lead) else (varpos[0] if varpos else None)
+        if v[0] == 'iter' and ((p and is_iterable_ann(p['ann'])) or (varpos and is_iterable_ann(varpos[0]['ann']))):
+            return True
     return False
 
 
@@ -588,6 +616,7 @@ MATCHERS = {
     'first_positional_stripped': lambda c, fn: len(c['args']) == 1 and not call_parts(c)[0] and strips_first(fn),
     'classmethod_decorated_directly': lambda c, fn: c['style'] == 'method_direct' and c['mkind'] == 'class' and c['mode'] == 'pedantic',
     'receiver_checked_against_varargs': lambda c, fn: bool(call_parts(c)[0]) and has_varpos(fn),
+    'pedantic_text_in_method_of_pedantic_class': lambda c, fn: c['style'] == 'class_deco' and fn['text']['pedantic'],
 }
 
 
